@@ -1,4 +1,379 @@
-import CubedModel.Model.MapUnordered
+/-
+  C08 — Task failures are retried and surfaced, never dropped; one result per task.
+
+  Property theorems only (model: `Model/MapUnordered.lean`, invariants: `Proofs/MapUnordered.lean`).
+  Every theorem is about `run cfg ok n t0 rounds`: the generator `async_map_unordered` on `n` inputs after an arbitrary
+  finite list of `asyncio.wait` rounds, where the environment chooses, per round, the finished set and its iteration
+  order, the iteration order over `copy(pending)`, which futures complete while the generator is suspended in a `yield`,
+  and every clock reading; `ok` is the eventual outcome of every future ever created (originals, later batches and
+  backups alike).  Nothing is bounded: any `n`, any `batch_size ≥ 1` (none, `< n`, `≥ n`), backups on or off.
+
+  `AsIs cfg` says that the configuration is the code as it is: the variant flags and backup thresholds are the facts
+  regenerated from the source (`Model/GeneratedC08.lean`); `generated_is_fixed` / `generated_thr_ok` tie them to what the
+  proofs need, so reverting one of the two `fix:` commits (or dropping the `task not in backups` guard) makes this file
+  fail to compile.
+-/
+import CubedModel.Proofs.MapUnordered
+
 namespace Cubed.C08
-theorem C08_stub : True := trivial
+
+open Cubed Cubed.MapUnordered
+
+/-- the configuration is the code as it is -/
+def AsIs (cfg : Cfg) : Prop :=
+  cfg.variant = Variant.generated ∧ cfg.thr = Thresholds.generated ∧ cfg.batchSize ≠ some 0
+
+/-- the state in which a run stands or ended -/
+def stateOf : Status → St
+  | .running st => st
+  | .finished _ st => st
+
+def outcomeOf : Status → Option Outcome
+  | .running _ => none
+  | .finished o _ => some o
+
+/-- the number of futures ever created for input `p` -/
+def submissions (st : St) (p : Nat) : Nat := (keys st.nextId (fun f => st.tasks f == some p)).length
+
+/-! ## ties between the regenerated facts and the proofs -/
+
+theorem generated_is_fixed : Variant.generated = Variant.fixed := by decide
+
+theorem generated_thr_ok : ThrOK Thresholds.generated := by unfold ThrOK; decide
+
+theorem asIs_isFixed (cfg : Cfg) (h : AsIs cfg) : IsFixed cfg :=
+  ⟨h.1.trans generated_is_fixed, by rw [h.2.1]; exact generated_thr_ok, h.2.2⟩
+
+/-- every reachable state satisfies the invariant (with the work list `w` of the round in which an exception left) -/
+theorem reach (cfg : Cfg) (ok : Nat → Bool) (n : Nat) (t0 : Int) (rounds : List Round) (h : AsIs cfg)
+    (hne : cfg.batchSize = none ∨ 0 < n) : Post cfg ok n rounds (run cfg ok n t0 rounds) :=
+  run_post cfg ok n t0 rounds (asIs_isFixed cfg h) hne
+
+/-- when the hypothesis "input non-empty or no batching" fails the generator dies before creating any future -/
+theorem run_empty_batched (cfg : Cfg) (ok : Nat → Bool) (t0 : Int) (rounds : List Round) (k : Nat)
+    (hb : cfg.batchSize = some (k + 1)) :
+    run cfg ok 0 t0 rounds = .finished (.crash "StopIteration") St.empty := by
+  simp [run, init, hb, batched, batchedAux]
+
+/-! ## concrete instances used by the `example`s below -/
+
+/-- 3 inputs in batches of 2 with backups enabled -/
+def exCfg : Cfg := { useBackups := true, batchSize := some 2 }
+/-- round 1: futures 1 and 0 finish (in that iteration order), then the second batch (future 2) -/
+def exRounds : List Round := [{ fin := [1, 0] }, { fin := [2] }]
+theorem exCfg_asIs : AsIs exCfg := ⟨rfl, rfl, by decide⟩
+
+/-- 10 inputs, no batching, backups: nine finish at t=1, the straggler 9 gets the backup 10 at t=4, both finish at t=6 -/
+def twinCfg : Cfg := { useBackups := true, batchSize := none }
+def twinRounds : List Round :=
+  [{ fin := [0, 1, 2, 3, 4, 5, 6, 7, 8], clkEnd := fun _ => 1, clkNow := 1 },
+   { fin := [], clkNow := 4, clkBackup := fun _ => 4 },
+   { fin := [9, 10], clkEnd := fun _ => 6, clkNow := 6 }]
+theorem twinCfg_asIs : AsIs twinCfg := ⟨rfl, rfl, by decide⟩
+
+/-- 20 inputs in batches of 10 with backups: six finish at t=1, the second batch is submitted, a timeout round follows -/
+def refillCfg : Cfg := { useBackups := true, batchSize := some 10 }
+def refillRounds : List Round :=
+  [{ fin := [0, 1, 2, 3, 4, 5], clkEnd := fun _ => 1, clkNow := 1, clkRefill := 1 }, { fin := [], clkNow := 3 }]
+
+/-! ## (1) no exception other than a task's own -/
+
+/-- full statement: whatever the environment does, the generator never ends with an exception that is not a task's. -/
+def C08_no_crash : Prop :=
+  ∀ (cfg : Cfg) (ok : Nat → Bool) (n : Nat) (t0 : Int) (rounds : List Round), AsIs cfg →
+    ∀ o st, run cfg ok n t0 rounds = .finished o st → ∀ why, o ≠ .crash why
+
+/-- It holds whenever the input is non-empty or batching is off (`batch_size = 0`, a `ValueError` of `batched`, is excluded
+by `AsIs`).  Dictionary lookups (`start_times[task]`, `tasks[task]`, `end_times`/`start_times` in `should_launch_backup`)
+never miss, for any option combination — in particular `use_backups` with `batch_size` (the first `fix:`). -/
+theorem C08_no_crash_partial (cfg : Cfg) (ok : Nat → Bool) (n : Nat) (t0 : Int) (rounds : List Round) (h : AsIs cfg)
+    (hne : cfg.batchSize = none ∨ 0 < n) :
+    ∀ o st, run cfg ok n t0 rounds = .finished o st → ∀ why, o ≠ .crash why := by
+  intro o st hr why ho
+  have := reach cfg ok n t0 rounds h hne
+  rw [hr, ho] at this
+  exact this
+
+/-- the excluded corner is real: `batch_size = 2` on an empty input ends with `StopIteration` (→ `RuntimeError`) -/
+def emptyBatched : Cfg := { useBackups := false, batchSize := some 2 }
+
+theorem C08_no_crash_fails : ¬ C08_no_crash := by
+  intro h
+  exact h emptyBatched (fun _ => true) 0 0 [] ⟨rfl, rfl, by decide⟩ _ _
+    (run_empty_batched emptyBatched _ 0 [] 1 rfl) "StopIteration" rfl
+
+/-- the hypotheses are satisfiable, and the conclusion is not vacuous: these runs do end -/
+example : AsIs refillCfg ∧ (refillCfg.batchSize = none ∨ 0 < 20) := ⟨⟨rfl, rfl, by decide⟩, Or.inr (by decide)⟩
+example : outcomeOf (run exCfg (fun _ => true) 3 0 exRounds) = some (.done [1, 0, 2]) := by decide
+example : outcomeOf (run refillCfg (fun _ => true) 20 0 refillRounds) = none := by decide   -- still running, no KeyError
+
+/-! ## (2) exactly one result per input -/
+
+/-- When the generator finishes normally, the inputs of the yielded results are a permutation of the inputs: every input
+exactly once — nothing dropped, nothing delivered twice (the second `fix:`). -/
+theorem C08_one_result_per_input (cfg : Cfg) (ok : Nat → Bool) (n : Nat) (t0 : Int) (rounds : List Round) (h : AsIs cfg)
+    (hne : cfg.batchSize = none ∨ 0 < n) (res : List Nat) (st : St)
+    (hr : run cfg ok n t0 rounds = .finished (.done res) st) :
+    (res.map st.tasks).Perm ((List.range n).map some) := by
+  have hp := reach cfg ok n t0 rounds h hne
+  rw [hr] at hp
+  obtain ⟨hi, hres, hany, hbat⟩ := hp
+  subst hres
+  have hnd2 : ((List.range n).map some).Nodup := by
+    refine List.Pairwise.map _ ?_ List.nodup_range
+    intro a b hab hs
+    exact hab (Option.some.inj hs)
+  refine (List.perm_ext_iff_of_nodup hi.e1 hnd2).mpr ?_
+  intro x
+  constructor
+  · intro hx
+    obtain ⟨e, he, rfl⟩ := List.mem_map.mp hx
+    have hlt := hi.b8 e he
+    have hs := (hi.b3 e).mp hlt
+    cases ht : st.tasks e with
+    | none => simp [ht] at hs
+    | some p =>
+      have := (hi.p1 e p ht).1
+      exact List.mem_map.mpr ⟨p, List.mem_range.mpr this, rfl⟩
+  · intro hx
+    obtain ⟨p, hp, rfl⟩ := List.mem_map.mp hx
+    have hp := List.mem_range.mp hp
+    rcases hi.p2 p hp with h1 | ⟨e, he, het⟩ | ⟨f, hact, _, _⟩
+    · simp [hbat] at h1
+    · exact List.mem_map.mpr ⟨e, he, het⟩
+    · exfalso
+      rcases hact with h2 | h2
+      · have := anyPending_of st f (hi.b1 f h2) h2
+        rw [hany] at this
+        cases this
+      · cases h2
+
+/-- instance: a task and its backup finish in the same round; one result for input 9, whichever of the two succeeded -/
+example : outcomeOf (run twinCfg (fun _ => true) 10 0 twinRounds) = some (.done [0, 1, 2, 3, 4, 5, 6, 7, 8, 9]) := by decide
+example : outcomeOf (run twinCfg (fun f => f != 9) 10 0 twinRounds) = some (.done [0, 1, 2, 3, 4, 5, 6, 7, 8, 10]) := by
+  decide
+example : (stateOf (run twinCfg (fun f => f != 9) 10 0 twinRounds)).tasks 10 = some 9 := by decide
+
+theorem filterMap_getElem?_range {α : Type} (l : List α) : (List.range l.length).filterMap (fun p => l[p]?) = l := by
+  induction l with
+  | nil => rfl
+  | cons x xs ih =>
+    rw [List.length_cons, List.range_succ_eq_map, List.filterMap_cons]
+    simp only [List.getElem?_cons_zero, List.filterMap_map]
+    congr 1
+
+/-- the same in terms of input *values*: for any input list, the values of the inputs whose results were yielded are a
+permutation of the input list. -/
+theorem C08_one_result_per_input_values {α : Type} (inputs : List α) (cfg : Cfg) (ok : Nat → Bool) (t0 : Int)
+    (rounds : List Round) (h : AsIs cfg) (hne : cfg.batchSize = none ∨ 0 < inputs.length) (res : List Nat) (st : St)
+    (hr : run cfg ok inputs.length t0 rounds = .finished (.done res) st) :
+    (res.filterMap (fun f => (st.tasks f).bind (fun p => inputs[p]?))).Perm inputs := by
+  have hperm := C08_one_result_per_input cfg ok inputs.length t0 rounds h hne res st hr
+  have := hperm.filterMap (fun o : Option Nat => o.bind (fun p => inputs[p]?))
+  rw [List.filterMap_map, List.filterMap_map] at this
+  have h2 : (List.range inputs.length).filterMap ((fun o : Option Nat => o.bind (fun p => inputs[p]?)) ∘ some) = inputs :=
+    filterMap_getElem?_range inputs
+  rw [h2] at this
+  exact this
+
+example : outcomeOf (run exCfg (fun _ => true) ["a", "b", "c"].length 0 exRounds) = some (.done [1, 0, 2]) := by decide
+
+/-! ## (3) results are successes of submissions of that input -/
+
+/-- At every moment (running, finished, or at the raise) every yielded result is the result of a future that completed
+successfully and was created for an input `p < n` — an input is never treated as done without a success. -/
+theorem C08_results_sound (cfg : Cfg) (ok : Nat → Bool) (n : Nat) (t0 : Int) (rounds : List Round) (h : AsIs cfg)
+    (hne : cfg.batchSize = none ∨ 0 < n) (f : Nat) (hf : f ∈ (stateOf (run cfg ok n t0 rounds)).emitted) :
+    ok f = true ∧ (stateOf (run cfg ok n t0 rounds)).done f = true ∧
+      ∃ p, p < n ∧ (stateOf (run cfg ok n t0 rounds)).tasks f = some p := by
+  have hp := reach cfg ok n t0 rounds h hne
+  have key : ∀ st w, Inv cfg ok n st w → f ∈ st.emitted → ok f = true ∧ st.done f = true ∧ ∃ p, p < n ∧ st.tasks f = some p := by
+    intro st w hi hf
+    refine ⟨(hi.e3 f hf).1, (hi.e3 f hf).2, ?_⟩
+    have hs := (hi.b3 f).mp (hi.b8 f hf)
+    cases ht : st.tasks f with
+    | none => simp [ht] at hs
+    | some p => exact ⟨p, (hi.p1 f p ht).1, rfl⟩
+  revert hp hf
+  cases run cfg ok n t0 rounds with
+  | running st => intro hf hp; exact key st [] hp.1 hf
+  | finished o st =>
+    cases o with
+    | done res => intro hf hp; exact key st [] hp.1 hf
+    | raised g => rintro hf ⟨w, rd, _, hi, _⟩; exact key st _ hi hf
+    | crash y => intro _ hp; exact hp.elim
+
+example : 1 ∈ (stateOf (run exCfg (fun _ => true) 3 0 exRounds)).emitted := by decide
+
+/-! ## (4) a task's error is raised exactly when it is fatal -/
+
+/-- Step level, in any state satisfying the invariant (every reachable state does, `reach`): processing a finished task `f`
+raises iff `f` failed, is not superseded, and every other submission of the same input is done and failed; the exception
+is `f`'s.  (A failure whose twin is still running or has succeeded is skipped — and the twin is then still active, so the
+input is not lost: `C08_one_result_per_input`.) -/
+theorem C08_raises_iff_fatal (cfg : Cfg) (ok : Nat → Bool) (n : Nat) (rd : Round) (st : St) (f : Nat) (w : List Nat)
+    (h : AsIs cfg) (hi : Inv cfg ok n st (f :: w)) (o : Outcome) :
+    procOne cfg ok rd st f = .error o ↔
+      (o = .raised f ∧ st.superseded f = false ∧ ok f = false ∧
+        ∀ g, g < st.nextId → st.tasks g = st.tasks f → g ≠ f → (isDone st rd g = true ∧ ok g = false)) :=
+  procOne_error_iff cfg ok n rd st f w (by rw [(asIs_isFixed cfg h).v]; rfl) hi o
+
+/-- Run level: if the generator raises, it raises the exception of a future `f` that failed, no submission of `f`'s input
+has succeeded (each other one is done and failed), and no result for that input was delivered. -/
+theorem C08_raises_only_fatal (cfg : Cfg) (ok : Nat → Bool) (n : Nat) (t0 : Int) (rounds : List Round) (h : AsIs cfg)
+    (hne : cfg.batchSize = none ∨ 0 < n) (f : Nat) (st : St)
+    (hr : run cfg ok n t0 rounds = .finished (.raised f) st) :
+    ok f = false ∧ st.done f = true ∧ (∀ e, e ∈ st.emitted → st.tasks e ≠ st.tasks f) ∧
+      ∃ rd, rd ∈ rounds ∧ ∀ g, g < st.nextId → st.tasks g = st.tasks f → g ≠ f → (isDone st rd g = true ∧ ok g = false) := by
+  have hp := reach cfg ok n t0 rounds h hne
+  rw [hr] at hp
+  obtain ⟨w, rd, hrd, hi, he⟩ := hp
+  have hx := (C08_raises_iff_fatal cfg ok n rd st f w h hi _).mp he
+  refine ⟨hx.2.2.1, (hi.w2 f (by simp)).2, ?_, rd, hrd, hx.2.2.2⟩
+  intro e he' heq
+  have := hi.e2 e f he' (Or.inr (by simp)) heq.symm
+  rw [hx.2.1] at this
+  cases this
+
+/-- instances: input 1 fails without a twin → its error; original 9 and backup 10 both fail → the error of the one
+processed last (here 9, whose twin is done and failed); only the backup fails → no raise (checked under (2)) -/
+example : outcomeOf (run exCfg (fun f => f != 1) 3 0 exRounds) = some (.raised 1) := by decide
+example : outcomeOf (run twinCfg (fun f => f != 9 && f != 10) 10 0 twinRounds) = some (.raised 9) := by decide
+example : outcomeOf (run twinCfg (fun f => f != 10) 10 0 twinRounds) = some (.done [0, 1, 2, 3, 4, 5, 6, 7, 8, 9]) := by
+  decide
+
+/-- … and the generator ends in no other way: done, or the error of a task. -/
+theorem C08_ends_done_or_task_error (cfg : Cfg) (ok : Nat → Bool) (n : Nat) (t0 : Int) (rounds : List Round) (h : AsIs cfg)
+    (hne : cfg.batchSize = none ∨ 0 < n) (o : Outcome) (st : St) (hr : run cfg ok n t0 rounds = .finished o st) :
+    (∃ res, o = .done res) ∨ (∃ f, o = .raised f ∧ ok f = false) := by
+  cases o with
+  | done res => exact Or.inl ⟨res, rfl⟩
+  | raised f => exact Or.inr ⟨f, rfl, (C08_raises_only_fatal cfg ok n t0 rounds h hne f st hr).1⟩
+  | crash y => exact absurd rfl (C08_no_crash_partial cfg ok n t0 rounds h hne _ st hr y)
+
+/-! ## (5) at most two submissions per input -/
+
+/-- At every moment every input has been submitted at most twice (the original and at most one backup) — with no
+hypothesis on the input (when the generator dies on an empty batched input it has created nothing). -/
+theorem C08_at_most_two_submissions (cfg : Cfg) (ok : Nat → Bool) (n : Nat) (t0 : Int) (rounds : List Round) (h : AsIs cfg)
+    (p : Nat) : submissions (stateOf (run cfg ok n t0 rounds)) p ≤ 2 := by
+  have key : ∀ st w, Inv cfg ok n st w → submissions st p ≤ 2 := by
+    intro st w hi
+    unfold submissions
+    refine length_le_two_of_no_three _ (nodup_keys _ _) ?_
+    intro a b c ha hb hc hab hbc hac
+    have ha := (mem_keys _ _ _).mp ha
+    have hb := (mem_keys _ _ _).mp hb
+    have hc := (mem_keys _ _ _).mp hc
+    have e1 : st.tasks a = some p := by simpa using ha.2
+    have e2 : st.tasks b = some p := by simpa using hb.2
+    have e3 : st.tasks c = some p := by simpa using hc.2
+    exact hi.g3 a b c ha.1 hb.1 hc.1 (e1.trans e2.symm) (e2.trans e3.symm) hab hbc hac
+  by_cases hne : cfg.batchSize = none ∨ 0 < n
+  · have hp := reach cfg ok n t0 rounds h hne
+    revert hp
+    cases run cfg ok n t0 rounds with
+    | running st => intro hp; exact key st [] hp.1
+    | finished o st =>
+      cases o with
+      | done res => intro hp; exact key st [] hp.1
+      | raised g => rintro ⟨w, rd, _, hi, _⟩; exact key st _ hi
+      | crash y => intro hp; exact hp.elim
+  · have hn : n = 0 := by
+      cases Nat.eq_zero_or_pos n with
+      | inl h0 => exact h0
+      | inr h0 => exact absurd (Or.inr h0) hne
+    subst hn
+    cases hb : cfg.batchSize with
+    | none => exact absurd (Or.inl hb) hne
+    | some bs =>
+      cases bs with
+      | zero => exact absurd hb h.2.2
+      | succ k =>
+        rw [run_empty_batched cfg ok t0 rounds k hb]
+        simp [stateOf, submissions, keys, St.empty]
+
+/-- instance: input 9 was submitted exactly twice, input 0 once -/
+example : submissions (stateOf (run twinCfg (fun _ => true) 10 0 twinRounds)) 9 = 2 ∧
+    submissions (stateOf (run twinCfg (fun _ => true) 10 0 twinRounds)) 0 = 1 := by decide
+
+/-! ## (6) the retry wrapper -/
+
+/-- one submission makes at most `retries + 1` attempts (`stop_after_attempt(retries + 1)`, regenerated) -/
+theorem C08_retry_attempts_le (retries : Nat) (succ : Nat → Bool) : (callWithRetries retries succ).2 ≤ retries + 1 := by
+  unfold callWithRetries
+  split
+  · simp
+  · have := (retrying_spec succ (retries + GeneratedC08.retryExtraAttempts - 1) 1).2.1
+    have he : GeneratedC08.retryExtraAttempts = 1 := by decide
+    rw [he] at this ⊢
+    omega
+
+/-- it succeeds iff one of the first `retries + 1` calls succeeds, stops at the first success, and otherwise makes exactly
+`retries + 1` attempts before re-raising -/
+theorem C08_retry_spec (retries : Nat) (succ : Nat → Bool) :
+    ((callWithRetries retries succ).1 = true ↔ ∃ j, 1 ≤ j ∧ j ≤ retries + 1 ∧ succ j = true) ∧
+    (∀ j, 1 ≤ j → j < (callWithRetries retries succ).2 → succ j = false) ∧
+    ((callWithRetries retries succ).1 = succ (callWithRetries retries succ).2) ∧
+    ((callWithRetries retries succ).1 = false → (callWithRetries retries succ).2 = retries + 1) := by
+  have he : GeneratedC08.retryExtraAttempts = 1 := by decide
+  have hz : GeneratedC08.retriesZeroSkipsWrapper = true := by decide
+  unfold callWithRetries
+  rw [he, hz]
+  by_cases h0 : retries = 0
+  · subst h0
+    simp only [decide_true, Bool.and_self, if_true]
+    refine ⟨⟨fun h => ⟨1, by omega, by omega, h⟩, ?_⟩, fun j h1 h2 => by omega, by trivial, by simp⟩
+    rintro ⟨j, h1, h2, h3⟩
+    have : j = 1 := by omega
+    subst this; exact h3
+  · have : (decide (retries = 0) && true) = false := by simp [h0]
+    simp only [this, Bool.false_eq_true, if_false]
+    obtain ⟨i1, i2, i3, i4, i5⟩ := retrying_spec succ (retries + 1 - 1) 1
+    refine ⟨⟨fun h => ⟨_, i1, by omega, by rw [← i4]; exact h⟩, ?_⟩, i3, i4, fun h => by have := i5 h; omega⟩
+    rintro ⟨j, h1, h2, h3⟩
+    cases hr : (retrying succ (retries + 1 - 1) 1).1 with
+    | true => rfl
+    | false =>
+      have hlast := i5 hr
+      by_cases hj : j < (retrying succ (retries + 1 - 1) 1).2
+      · have := i3 j h1 hj; rw [h3] at this; cases this
+      · have : j = (retrying succ (retries + 1 - 1) 1).2 := by omega
+        rw [i4, ← this, h3] at hr; cases hr
+
+/-- instances: retries = 2, third call succeeds → success after 3 calls; never succeeds → 3 calls; retries = 0 → 1 call -/
+example : callWithRetries 2 (fun k => k == 3) = (true, 3) := by decide
+example : callWithRetries 2 (fun _ => false) = (false, 3) := by decide
+example : callWithRetries 0 (fun k => k == 2) = (false, 1) := by decide
+
+/-- the documented default: "up to a total of three attempts" -/
+theorem C08_default_three_attempts (succ : Nat → Bool) :
+    (callWithRetries GeneratedC08.defaultRetries succ).2 ≤ 3 :=
+  C08_retry_attempts_le 2 succ
+
+/-! ## what the two `fix:` commits repaired
+
+The same runs under the behaviour *before* each fix (`Variant` flags off) violate the statements above.  These stay here as
+regression witnesses: the harness replays them on the real coroutine (they must NOT reproduce on the tree under test). -/
+
+/-- before the first fix: batch refill rebinds `start_times`, `should_launch_backup` then misses a key -/
+def refillOld : Cfg := { refillCfg with variant := ⟨false, true, true⟩ }
+/-- before the second fix: no `superseded` set -/
+def twinOld : Cfg := { twinCfg with variant := ⟨true, false, true⟩ }
+
+/-- `KeyError` although every task succeeds (violates `C08_no_crash_partial`) -/
+theorem C08_witness_refill_replaced_start_times :
+    outcomeOf (run refillOld (fun _ => true) 20 0 refillRounds) = some (.crash "KeyError: start_times") := by decide
+
+/-- original 9 and backup 10 both succeed in one round: two results for input 9 (violates `C08_one_result_per_input`) -/
+theorem C08_witness_twins_duplicate_result :
+    outcomeOf (run twinOld (fun _ => true) 10 0 twinRounds) = some (.done [0, 1, 2, 3, 4, 5, 6, 7, 8, 9, 10]) ∧
+    (stateOf (run twinOld (fun _ => true) 10 0 twinRounds)).tasks 10 = some 9 := by decide
+
+/-- original 9 succeeds and is yielded, then its failed backup 10 is processed: its error is raised although the input
+succeeded (violates `C08_raises_only_fatal`) -/
+theorem C08_witness_twins_spurious_raise :
+    outcomeOf (run twinOld (fun f => f != 10) 10 0 twinRounds) = some (.raised 10) ∧
+    9 ∈ (stateOf (run twinOld (fun f => f != 10) 10 0 twinRounds)).emitted := by decide
+
 end Cubed.C08
